@@ -438,3 +438,30 @@ def import_pyrefact():
     logs.set_level(100)
     logging.disable(logging.CRITICAL)
     return mod
+
+
+class scratch_lock:
+    """Exclusive lock for one scratch root.  Roots are named after the run seed so that a replay sees the
+    same absolute paths; two checks running side by side with the same seed (same batch label in two
+    properties, a check next to a replay) would otherwise work in the same directory."""
+
+    def __init__(self, root):
+        self.path = str(root).rstrip("/") + ".lock"
+        self.fd = None
+
+    def __enter__(self):
+        import fcntl
+
+        os.makedirs(os.path.dirname(self.path), exist_ok=True)
+        self.fd = os.open(self.path, os.O_CREAT | os.O_RDWR, 0o644)
+        fcntl.flock(self.fd, fcntl.LOCK_EX)
+        return self
+
+    def __exit__(self, *exc):
+        import fcntl
+
+        try:
+            fcntl.flock(self.fd, fcntl.LOCK_UN)
+        finally:
+            os.close(self.fd)
+        return False
